@@ -47,6 +47,7 @@ def _extra():
         add("deferred-plusplus", "unsigned char j, k, n;", "n = 0; for (j--; n != 3; n++) k = j;", {"init": {"j": j}, "expect": {"j": (j - 1) & 255, "k": (j - 1) & 255, "n": 3}}, "j=%d" % j)
         add("deferred-plusplus-in-if-condition", "unsigned char j, k, n;", "n = 0; if (j++ == 5) n = 1; k = j;", {"init": {"j": j}, "expect": {"n": int(j == 5), "k": (j + 1) & 255}}, "j=%d" % j)
         add("deferred-plusplus", "unsigned char j, k, arr[10];", "arr[5] = 1; arr[6] = 2; arr[7] = 3; X = j; k = arr[X++]; j = X;", {"init": {"j": 5}, "expect": {"k": 1, "j": 6}}, "")
+        add("deferred-plusplus-in-switch-expression", "unsigned char j, r;", "r = 0; switch (j++) { case 0: r = 1; break; case 5: r = 2; break; }", {"init": {"j": j}, "expect": {"r": {0: 1, 5: 2}.get(j, 0), "j": (j + 1) & 255}}, "j=%d" % j)
         add("deferred-plusplus-in-dowhile-condition", "unsigned char j, k, n;", "n = 0; do { n++; } while (j-- != 0);", {"init": {"j": j}, "expect": {"n": j + 1, "j": 255}}, "j=%d" % j)
     # loops: for / while / do-while agree
     for n in (0, 1, 5, 200):
@@ -166,7 +167,7 @@ def _group_of(src):
 
 def corpus(tier):
     """[(group name, properties, [programs])]: every program at -O0 (C01, C15) and at -O1 (C02)."""
-    from . import u_condex, u_cond16, u_arithm, u_assign, u_shift, u_condval, u_gencond, u_if, u_loops, u_condtail
+    from . import u_condex, u_cond16, u_arithm, u_assign, u_shift, u_condval, u_gencond, u_if, u_loops, u_condtail, u_switch
     groups = {}
     for mod in (u_condex, u_cond16, u_arithm, u_shift):
         for c in mod.candidates(None):
@@ -175,7 +176,7 @@ def corpus(tier):
         groups.setdefault("logical-conditions", []).append(c)
     for c in u_condval.candidates(None):
         groups.setdefault("cond-value", []).append(c)
-    for mod, gname in ((u_if, "if-forms"), (u_loops, "loop-contract-candidates"), (u_condtail, "cond-tail")):
+    for mod, gname in ((u_if, "if-forms"), (u_loops, "loop-contract-candidates"), (u_condtail, "cond-tail"), (u_switch, "switch-forms")):
         for c in mod.candidates(None):
             if c.get("simulate"):
                 groups.setdefault(gname, []).append(c)
